@@ -342,6 +342,21 @@ def run_shard(spec, rec):
         run_case({"idx": i, "seed": spec["seed"], "cfg": cfg}, rec, mon)
         if i % 25 == 0:
             run_case({"idx": i, "seed": spec["seed"], "cfg": {"sampling_rate": int(rng.choice(filtgen.RATES))}, "kind": "ranges"}, rec, mon)
+        if i % 50 == 10:
+            # siblings of this bank in the same process: same class family, scale, filter count and low_hz, but another
+            # sampling rate / the default high_hz / the other complex bank class (whatever is shared between banks must not leak)
+            for j, rate2 in enumerate((8000, 16000, 11025)):
+                sib = dict(cfg, sampling_rate=rate2, high_hz=None if j != 1 else float(rate2 // 4))
+                sib.pop("_kinds", None)
+                sib["low_hz"] = float(min(cfg["low_hz"], rate2 / 8))
+                if isinstance(sib.get("scaling_function"), dict) and sib["scaling_function"].get("name") == "octave":
+                    sib["low_hz"] = max(sib["low_hz"], sib["scaling_function"]["low_hz"])
+                if cfg["name"] in ("gabor", "gammatone") and j == 2:
+                    other = "gammatone" if cfg["name"] == "gabor" else "gabor"
+                    sib = {k: v for k, v in sib.items() if k in ("num_filts", "sampling_rate", "low_hz", "high_hz", "scaling_function")}
+                    sib["name"] = other
+                run_case({"idx": 10 ** 7 + 10 * i + j, "seed": spec["seed"], "cfg": sib}, rec, mon)
+                rec.count("sibling_banks_in_one_process")
     monitor.report(rec)
     monitor.detach_all()
 
